@@ -216,12 +216,22 @@ func createProcess(p *Process, isMethod bool) {
 }
 
 func executeProcess(p *Process) {
+	// If the command panics then crash.Handler (below) reports it, but the
+	// process still has to be torn down. Otherwise it never reports its
+	// termination and whoever is waiting for it is blocked forever.
+	destroyed := false
+	defer func() {
+		if !destroyed {
+			destroyProcess(p)
+		}
+	}()
 	defer crash.Handler()
 
 	testStates(p)
 
 	if p.HasTerminated() || p.HasCancelled() ||
 		/*p.Parent.HasTerminated() ||*/ p.Parent.HasCancelled() {
+		destroyed = true
 		destroyProcess(p)
 		return
 	}
@@ -426,6 +436,7 @@ cleanUpProcess:
 	}
 
 	//debug.Json("Execute process (destroyProcess)", p)
+	destroyed = true
 	destroyProcess(p)
 }
 
